@@ -190,7 +190,11 @@ Section Sys.
     let p := spending ops in
     negb (disc ops) ||
     ( (* a solver entry exists exactly while its address is in use, and counts the uses *)
-      forallb (fun e : str * (Z * bool) => (fst (snd e) =? npend (fst e) p) && (0 <? fst (snd e))) (sn_solvers o) &&
+      forallb (fun e : str * (Z * bool) =>
+                 match aget str_eqb (fst e) (sn_solvers o) with
+                 | Some (n, _) => (n =? npend (fst e) p) && (0 <? n)
+                 | None => false
+                 end) (sn_solvers o) &&
       forallb (fun e : pentry => negb (is_listener (o_kind (fst e))) ||
                                  match aget str_eqb (o_addr (fst e)) (sn_solvers o) with Some _ => true | None => false end) p &&
       (* a listener that was opened stays open while any challenge uses the address *)
